@@ -85,7 +85,12 @@ func c17AsInt64(d any) (int64, bool) {
 func VerifC17Arith() {
 	var a, b any
 	var fa, fb float64
-	switch nd.Choice(4) {
+	switch nd.Choice(5) {
+	case 4: // concrete float32 operands that are not short decimals as float64
+		f32 := []float32{0.1, 0.3, 1e-3, 16777216, 3.4e38, -2.7}[nd.Choice(6)]
+		a, fa = f32, float64(f32)
+		fb = []float64{0, 4, 0.5}[nd.Choice(3)]
+		b = fb
 	case 3: // a float32 operand is exactly the float64 with the same value
 		f32 := nd.Float32()
 		nd.Assume(f32 == f32 && f32-f32 == 0)
